@@ -42,7 +42,16 @@ def fr(x):
             return fr(float(x))
     except ImportError:  # pragma: no cover
         pass
-    raise TypeError(f"not a number: {type(x)}")
+    if isinstance(x, (str, bytes, bytearray)) or x is None:
+        raise TypeError(f"not a number: {type(x)}")
+    # user defined real number types (the repository's tests use one): whatever float() makes of them
+    try:
+        v = float(x)
+    except Exception:
+        raise TypeError(f"not a number: {type(x)}")
+    if v != v or v in (math.inf, -math.inf):
+        raise ValueError("non finite")
+    return F(v)
 
 
 def is_real_number(x):
